@@ -57,31 +57,6 @@ Fixpoint ival_eqb (a b : fival) : bool :=
   | _, _ => false
   end.
 
-(* ---- the CURRENT code for tuple members (known finding C01 arith-member-in-tuple):
-   TuplePrior.value_for_arguments builds the tuple from prior_tuples + instance_tuples only, so a member
-   that is neither a Prior nor a float (an arithmetic prior) is silently left out.  `prune` removes such
-   members; ModelTree.inst itself describes the repaired behaviour (every member is evaluated). ---- *)
-Fixpoint prune (n : fnode) : fnode :=
-  match n with
-  | NTuple ms =>
-      NTuple ((fix go (ms : list (string * (nat * fnode))) : list (string * (nat * fnode)) :=
-                 match ms with
-                 | [] => []
-                 | (k, (i, c)) :: ms' =>
-                     match c with
-                     | NPrior _ | NConst _ => (k, (i, c)) :: go ms'
-                     | _ => go ms'
-                     end
-                 end) ms)
-  | NModel cls ctor attrs =>
-      NModel cls ctor ((fix go (a : list (string * fnode)) : list (string * fnode) :=
-                          match a with [] => [] | (k, c) :: a' => (k, prune c) :: go a' end) attrs)
-  | NColl attrs =>
-      NColl ((fix go (a : list (string * fnode)) : list (string * fnode) :=
-                match a with [] => [] | (k, c) :: a' => (k, prune c) :: go a' end) attrs)
-  | _ => n
-  end.
-
 (* unit-vector route with the priors' value_for given as a finite table (the implementation's
    vector_from_unit_vector output, in advertised order) *)
 Definition table_value_for (ids : list nat) (tab : list float) (q : nat) (_ : float) : float :=
@@ -102,13 +77,12 @@ Record case := {
   c_inst_paths : fival;         (* instance_from_path_arguments(dict c_pv) *)
   c_unit_vec : list float;      (* vector_from_unit_vector(u): table of value_for *)
   c_inst_unit : option fival;   (* instance_from_unit_vector(u); None when it (and the vector) raised *)
-  c_cmp_inst : bool;            (* false: instances not compared (division by zero, int member of a tuple) *)
-  c_prune : bool                (* true: current-code view of tuples (known finding), see prune *)
+  c_cmp_inst : bool             (* false: instances not compared (division by zero: the code raises) *)
 }.
 
 Definition check_case (c : case) : bool :=
   let n := c_tree c in
-  let m := if c_prune c then prune n else n in
+  let m := n in
   let ids := ordered_ids float n in
   list_eqb path_eqb (paths float n) (c_paths c)
   && list_eqb path_eqb (unique_prior_paths float n) (c_upaths c)
